@@ -33,7 +33,7 @@ from dataclasses import dataclass
 from pathlib import Path
 
 from src.core.base import BaseLintContext, MultiLanguageLintRule
-from src.core.linter_utils import load_linter_config
+from src.core.linter_utils import load_linter_config, path_in_project
 from src.core.types import Violation
 
 from .config import StringlyTypedConfig
@@ -317,7 +317,7 @@ class StringlyTypedRule(MultiLanguageLintRule):  # thailint: ignore[srp]
             return False
         # _is_ready_for_analysis ensures file_path is set
         assert context.file_path is not None  # nosec B101
-        return not is_ignored(context.file_path, config.ignore)
+        return not is_ignored(path_in_project(context), config.ignore)
 
     def _store_validation_patterns(self, file_content: str, file_path: Path) -> None:
         """Analyze and store validation patterns.
